@@ -520,7 +520,7 @@ class KernelRIM(LinearModel):
         >>> X,y=load_iris(return_X_y=True)
         >>> clf = KernelRIM(random_state=0).fit(X)
         >>> clf.predict(X[:2,:])
-        array([2, 2])
+        array([0, 0])
         >>> clf.predict_proba(X[:2,:]).shape
         (2, 3)
         """
